@@ -1,4 +1,9 @@
-(** C03 — read-only operations are pure pass-throughs.
+(** C03 — BackupFS is transparent: read-only operations are pure
+    pass-throughs; a mutating operation is the base's own operation on the
+    resolved name, run after the backup step, which does not change what the
+    base shows.
+
+    THE READ-ONLY HALF (first part of this file).
 
     Proved here, for EVERY [base backup : fsapi] and EVERY world (no law about
     the filesystems assumed), via Proofs/Footprint.v:
@@ -21,7 +26,89 @@
     NOT proved here: what the base's Lstat/Stat/Readlink/OpenFile do (an
     arbitrary [fsapi] may do anything inside its methods); the reads made
     afterwards on the returned handle ([hread] etc. are global functions on the
-    handle returned by the base, BackupFS does not wrap it). *)
+    handle returned by the base, BackupFS does not wrap it).
+
+    THE MUTATING HALF (second part of this file, via Proofs/Transparent.v).
+
+    (B1) Structure - EVERY [base backup : fsapi], EVERY world, no law:
+    [C03_X_is_base] for X = create, mkdir, mkdirall, openfile (flag <> 0),
+    remove, chmod, chown, lchown, chtimes, symlink, and [C03_rename_is_base]:
+    if the name resolves to [rn] and the backup step succeeds, leaving the
+    world [w2], then [b_X base backup n args w = a_X base rn args w2] - the
+    operation IS the base's own method, called once, on the resolved name, in
+    the world the backup step left; result and resulting world are those of
+    that call.  [C03_mutating_structure] / [C03_rename_structure] give every
+    course of [step] (the observable operation: Create/OpenFile write the data
+    through the handle and close it): resolution fails -> that failure; the
+    backup fails -> that failure, in the world the backup left, the base
+    method never called (also Proofs/Footprint.v, C08); otherwise
+    [step_direct base] - the same operation issued directly on the base - with
+    the resolved name(s).
+
+    (B2) From the laws of Spec/Laws.v (any two filesystems satisfying them),
+    in a state satisfying the transaction invariant, for RESOLVED names (no
+    symlink among the parents: [real_path] is the identity,
+    [real_path_resolved_spec]) and the operations of [covered]:
+    - [C03_mutating_transparent] (Create, OpenFile+write, Mkdir, MkdirAll,
+      Remove, Symlink, Chmod, Chown, Lchown, Chtimes) and
+      [C03_rename_transparent] (source without children in the view): there is
+      a world [w2] - the one the backup step leaves - with THE SAME BASE VIEW
+      as [w], the same crash point and fault plan, satisfying the invariant
+      again, bookkeeping added on the chain(s) from the root to the name(s)
+      only, such that either the backup step failed (possible only if an
+      existing proper ancestor of a name is not a directory) and the operation
+      returns that error in [w2], base view unchanged; or
+      [step base backup o w = step_direct base o w2]: success or failure,
+      returned data and resulting base are those of the operation issued
+      directly on the base in a state showing the same view.  The backup view
+      and the bookkeeping are not touched by the call on the base.
+    - [C03_removeall_absent]: RemoveAll of a path that does not exist returns
+      nil and changes nothing (base view, backup view, bookkeeping, crash and
+      fault plan).  [C03_removeall_leaf]: RemoveAll of a file or symlink is the
+      base's Remove after the backup step (which cannot fail); it succeeds,
+      the entry is gone, and the base's own RemoveAll issued directly in [w]
+      succeeds as well and leaves the same view.  [C03_removeall_frame]:
+      RemoveAll of anything but the root changes the base view at and below
+      the name only, only removes entries, keeps the invariant.
+    - [C03_metadata_same_view], [C03_remove_same_view]: where the laws fix
+      what the base does (Chmod/Chown/Lchown/Chtimes of an existing entry;
+      Remove), the comparison is with the direct operation IN THE SAME world
+      [w]: same success or failure ("not found" for a missing entry on both
+      sides), equal resulting base views (Remove: up to directory timestamps).
+    - "exactly the entry the caller named": [C03_affects_only_named]: after a
+      covered mutating operation the base view differs from the one before at
+      the named entry only (Rename: the two names; MkdirAll: the chain from
+      the root to the name, i.e. the directories it may create; RemoveAll: at
+      and below the name) - directory timestamps aside, which
+      [store_eqv_except] ignores; never a sibling, never a parent.
+      [C03_direct_framed] is the same fact about the base alone.
+    (B3) [C03_mutating_concrete], [C03_mutating_documented]: all of (B2),
+    closed (no law assumed), for the generic layering [gcfg pa pb] and the
+    documented one [dcfg pa h] (backup location inside the base tree, hidden
+    by HiddenFS); [C03_mutating_transparent_concrete] spells the central
+    statement out for the generic layering.
+
+    STILL ON THE TWIN-RUN ORACLE (correspondence check), not proved here:
+    - names with a symlink among the parents: (B1) applies ([rn] is whatever
+      [real_path] returns) but (B2) is stated for resolved names; that [rn]
+      names the entry the OS would reach is C16 (proved for the plain OS
+      filesystem, not at the law level), that the backup step leaves the base
+      view alone for such names is not stated;
+    - operations that follow a symlink in the FINAL component (Create,
+      OpenFile, Chmod, Chown, Chtimes on a symlink: recorded finding D14) are
+      excluded by [covered]; Rename of a directory with entries (D12),
+      Remove/RemoveAll of the root (K6) likewise;
+    - error classes: when the backup step fails (an ancestor is a file) the
+      theorems say BackupFS returns the backup step's error; that the direct
+      operation fails too, and with which errno, is not derivable from the
+      laws;
+    - for Create, OpenFile, Mkdir, MkdirAll, Symlink, Rename the comparison is
+      with the direct operation in [w2] (same base view, different backup
+      content): the frame laws do not say that a filesystem's behaviour is a
+      function of its view, so "the same as in [w] itself" rests on the oracle
+      for these (it is proved for the metadata operations and Remove);
+    - what the base does on the handle returned by Create/OpenFile beyond the
+      frame (content written) is the base's business ([law_user_handle]). *)
 From stdpp Require Import gmap.
 From BFS Require Import Backup.History Proofs.Footprint.
 
@@ -87,3 +174,282 @@ Theorem C03_infos_unchanged : forall base backup : fsapi,
   (forall n perm w r w', b_openfile base backup n 0 perm w = (r, w') -> w_infos w' = w_infos w).
 Proof. exact readonly_infos_unchanged. Qed.
 Print Assumptions C03_infos_unchanged.
+
+(* ------------------------------------------------------------------ *)
+(** * The mutating half *)
+From BFS Require Import Spec.CopySpecs Proofs.BackupTry Proofs.Transparent.
+
+(** ** (B1) structure: every [base], [backup], world *)
+
+Theorem C03_create_is_base : forall base backup n rn w w2, backed_up base backup n rn w w2 ->
+  b_create base backup n w = a_create base rn w2.
+Proof. exact b_create_is_base. Qed.
+Print Assumptions C03_create_is_base.
+
+Theorem C03_mkdir_is_base : forall base backup n perm rn w w2, backed_up base backup n rn w w2 ->
+  b_mkdir base backup n perm w = a_mkdir base rn perm w2.
+Proof. exact b_mkdir_is_base. Qed.
+Print Assumptions C03_mkdir_is_base.
+
+Theorem C03_mkdirall_is_base : forall base backup n perm rn w w2, backed_up base backup n rn w w2 ->
+  b_mkdirall base backup n perm w = a_mkdirall base rn perm w2.
+Proof. exact b_mkdirall_is_base. Qed.
+Print Assumptions C03_mkdirall_is_base.
+
+Theorem C03_openfile_is_base : forall base backup n fl perm rn w w2, fl <> 0%N ->
+  backed_up base backup n rn w w2 ->
+  b_openfile base backup n fl perm w = a_openfile base rn fl perm w2.
+Proof. exact b_openfile_is_base. Qed.
+Print Assumptions C03_openfile_is_base.
+
+Theorem C03_remove_is_base : forall base backup n rn w w2, backed_up base backup n rn w w2 ->
+  b_remove base backup n w = a_remove base rn w2.
+Proof. exact b_remove_is_base. Qed.
+Print Assumptions C03_remove_is_base.
+
+Theorem C03_chmod_is_base : forall base backup n mode rn w w2, backed_up base backup n rn w w2 ->
+  b_chmod base backup n mode w = a_chmod base rn mode w2.
+Proof. exact b_chmod_is_base. Qed.
+Print Assumptions C03_chmod_is_base.
+
+Theorem C03_chown_is_base : forall base backup n u g rn w w2, backed_up base backup n rn w w2 ->
+  b_chown base backup n u g w = a_chown base rn u g w2.
+Proof. exact b_chown_is_base. Qed.
+Print Assumptions C03_chown_is_base.
+
+Theorem C03_lchown_is_base : forall base backup n u g rn w w2, backed_up base backup n rn w w2 ->
+  b_lchown base backup n u g w = a_lchown base rn u g w2.
+Proof. exact b_lchown_is_base. Qed.
+Print Assumptions C03_lchown_is_base.
+
+Theorem C03_chtimes_is_base : forall base backup n t rn w w2, backed_up base backup n rn w w2 ->
+  b_chtimes base backup n t w = a_chtimes base rn t w2.
+Proof. exact b_chtimes_is_base. Qed.
+Print Assumptions C03_chtimes_is_base.
+
+Theorem C03_symlink_is_base : forall base backup t n rn w w2, backed_up base backup n rn w w2 ->
+  b_symlink base backup t n w = a_symlink base t rn w2.
+Proof. exact b_symlink_is_base. Qed.
+Print Assumptions C03_symlink_is_base.
+
+Theorem C03_rename_is_base : forall base backup o n ro rn w w4, backed_up2 base backup o n ro rn w w4 ->
+  b_rename base backup o n w = a_rename base ro rn w4.
+Proof. exact b_rename_is_base. Qed.
+Print Assumptions C03_rename_is_base.
+
+(** every course of a single-name mutating operation ([mut1]: Create,
+    OpenFile with a flag other than 0, Mkdir, MkdirAll, Remove, Symlink, Chmod,
+    Chown, Lchown, Chtimes), as observed by [step] *)
+Theorem C03_mutating_structure : forall base backup o w, mut1 o ->
+  step base backup o w =
+  match real_path base (op_name o) w with
+  | (MOk rn, w1) =>
+      match try_backup base backup rn w1 with
+      | (MOk _, w2) => step_direct base (with_name o rn) w2
+      | (MErr e, w2) => (MErr e, w2)
+      | (MHalt, w2) => (MHalt, w2)
+      end
+  | (MErr e, w1) => (MErr e, w1)
+  | (MHalt, w1) => (MHalt, w1)
+  end.
+Proof. exact step_mut1_cases. Qed.
+Print Assumptions C03_mutating_structure.
+
+Theorem C03_rename_structure : forall base backup o n w,
+  step base backup (ORename o n) w =
+  match real_path base o w with
+  | (MOk ro, w1) =>
+      match real_path base n w1 with
+      | (MOk rn, w2) =>
+          match try_backup base backup rn w2 with
+          | (MOk _, w3) =>
+              match try_backup base backup ro w3 with
+              | (MOk _, w4) => step_direct base (ORename ro rn) w4
+              | (MErr e, w4) => (MErr e, w4)
+              | (MHalt, w4) => (MHalt, w4)
+              end
+          | (MErr e, w3) => (MErr e, w3)
+          | (MHalt, w3) => (MHalt, w3)
+          end
+      | (MErr e, w2) => (MErr e, w2)
+      | (MHalt, w2) => (MHalt, w2)
+      end
+  | (MErr e, w1) => (MErr e, w1)
+  | (MHalt, w1) => (MHalt, w1)
+  end.
+Proof. exact step_rename_cases. Qed.
+Print Assumptions C03_rename_structure.
+
+(** ** (B2) from the laws, for resolved names, under the invariant *)
+
+(** the central statement, spelled out ([mut1_transparent_stmt]) *)
+Theorem C03_mutating_transparent :
+  forall base backup Vb Vk tnb tnk accb acck rhb rhk whb whk hid anc B0,
+  base_laws base Vb Vk tnb accb rhb whb hid anc ->
+  backup_laws backup Vb Vk tnk acck rhk whk ->
+  links_ok tnb tnk accb acck B0 -> all_small B0 -> swf B0 ->
+  forall o w, Inv Vb Vk B0 w -> covered Vb o w -> mut1 o ->
+  exists w2 r w',
+    (* the world the backup step leaves *)
+    Vb w2 = Vb w /\ w_crash w2 = w_crash w /\ w_faults w2 = w_faults w /\ Inv Vb Vk B0 w2 /\
+    infos_ext w w2 (cands (op_name o)) /\
+    (* the operation through BackupFS *)
+    step base backup o w = (r, w') /\ r <> MHalt /\
+    swf (Vb w') /\ store_eqv_except (op_frame o) (Vb w') (Vb w) /\ same_rest Vk w2 w' /\
+    (((exists e, r = MErr e) /\ w' = w2 /\ ~ all_dirs Vb w (op_name o)) \/
+     step_direct base o w2 = (r, w')).
+Proof. exact mut1_transparent. Qed.
+Print Assumptions C03_mutating_transparent.
+
+Theorem C03_rename_transparent :
+  forall base backup Vb Vk tnb tnk accb acck rhb rhk whb whk hid anc B0,
+  base_laws base Vb Vk tnb accb rhb whb hid anc ->
+  backup_laws backup Vb Vk tnk acck rhk whk ->
+  links_ok tnb tnk accb acck B0 -> all_small B0 -> swf B0 ->
+  rename_transparent_stmt base backup Vb Vk B0.
+Proof. exact rename_transparent. Qed.
+Print Assumptions C03_rename_transparent.
+
+(** "RemoveAll of a path that does not exist succeeds" - and changes nothing *)
+Theorem C03_removeall_absent :
+  forall base backup Vb Vk tnb accb rhb whb hid anc B0,
+  base_laws base Vb Vk tnb accb rhb whb hid anc ->
+  forall w n, Inv Vb Vk B0 w -> snolinkpar (Vb w) n -> Vb w !! n = None ->
+  exists w', b_removeall base backup n w = (MOk tt, w') /\
+             step base backup (ORemoveAll n) w = (MOk ObUnit, w') /\ same_all Vb Vk w w'.
+Proof. exact removeall_absent_transparent. Qed.
+Print Assumptions C03_removeall_absent.
+
+Theorem C03_removeall_leaf :
+  forall base backup Vb Vk tnb tnk accb acck rhb rhk whb whk hid anc B0,
+  base_laws base Vb Vk tnb accb rhb whb hid anc ->
+  backup_laws backup Vb Vk tnk acck rhk whk ->
+  links_ok tnb tnk accb acck B0 -> all_small B0 -> swf B0 ->
+  removeall_leaf_stmt base backup Vb Vk B0.
+Proof. exact removeall_leaf_transparent. Qed.
+Print Assumptions C03_removeall_leaf.
+
+Theorem C03_removeall_frame :
+  forall base backup Vb Vk tnb tnk accb acck rhb rhk whb whk hid anc B0,
+  base_laws base Vb Vk tnb accb rhb whb hid anc ->
+  backup_laws backup Vb Vk tnk acck rhk whk ->
+  links_ok tnb tnk accb acck B0 -> all_small B0 -> swf B0 ->
+  base_laws2 base Vb Vk tnb accb rhb whb ->
+  forall w n, Inv Vb Vk B0 w -> snolinkpar (Vb w) n -> n <> s_root ->
+  exists r w', step base backup (ORemoveAll n) w = (r, w') /\ r <> MHalt /\
+               outside n (Vb w') (Vb w) /\ shrinks (Vb w) (Vb w') /\ Inv Vb Vk B0 w' /\
+               infos_ext_in w w' (below_chain n).
+Proof. exact removeall_frame. Qed.
+Print Assumptions C03_removeall_frame.
+
+(** "An operation affects exactly the entry the caller named, never a parent
+    or sibling" ([changes_only]: [store_eqv_except (op_frame o)], for
+    RemoveAll [outside n]) *)
+Theorem C03_affects_only_named :
+  forall base backup Vb Vk tnb tnk accb acck rhb rhk whb whk hid anc B0,
+  base_laws base Vb Vk tnb accb rhb whb hid anc ->
+  backup_laws backup Vb Vk tnk acck rhk whk ->
+  links_ok tnb tnk accb acck B0 -> all_small B0 -> swf B0 ->
+  base_laws2 base Vb Vk tnb accb rhb whb ->
+  forall o w r w', Inv Vb Vk B0 w -> covered Vb o w -> mutating o ->
+  step base backup o w = (r, w') ->
+  r <> MHalt /\ swf (Vb w') /\ changes_only o (Vb w') (Vb w).
+Proof. exact covered_frame. Qed.
+Print Assumptions C03_affects_only_named.
+
+(** the same about the base alone (no BackupFS) *)
+Theorem C03_direct_framed :
+  forall base Vb Vk tnb accb rhb whb hid anc,
+  base_laws base Vb Vk tnb accb rhb whb hid anc ->
+  direct_framed_stmt base Vb Vk.
+Proof. exact direct_framed. Qed.
+Print Assumptions C03_direct_framed.
+
+(** Chmod, Chown, Lchown, Chtimes of an existing entry: the same as the direct
+    operation in the same world *)
+Theorem C03_metadata_same_view :
+  forall base backup Vb Vk tnb tnk accb acck rhb rhk whb whk hid anc B0,
+  base_laws base Vb Vk tnb accb rhb whb hid anc ->
+  backup_laws backup Vb Vk tnk acck rhk whk ->
+  links_ok tnb tnk accb acck B0 -> all_small B0 -> swf B0 ->
+  forall o w nd, Inv Vb Vk B0 w -> covered Vb o w -> meta_op o -> Vb w !! op_name o = Some nd ->
+  exists w' wd,
+    step base backup o w = (MOk ObUnit, w') /\ step_direct base o w = (MOk ObUnit, wd) /\
+    Vb w' = Vb wd /\ Vb w' = <[ op_name o := meta_result o nd ]> (Vb w).
+Proof. exact meta_op_same. Qed.
+Print Assumptions C03_metadata_same_view.
+
+(** Remove: the same as the direct operation in the same world *)
+Theorem C03_remove_same_view :
+  forall base backup Vb Vk tnb tnk accb acck rhb rhk whb whk hid anc B0,
+  base_laws base Vb Vk tnb accb rhb whb hid anc ->
+  backup_laws backup Vb Vk tnk acck rhk whk ->
+  links_ok tnb tnk accb acck B0 -> all_small B0 -> swf B0 ->
+  remove_same_stmt base backup Vb Vk B0.
+Proof. exact remove_same. Qed.
+Print Assumptions C03_remove_same_view.
+
+(** all of (B2) at once ([c03_mutating_stmt]: the conjunction of the nine
+    statements above) *)
+Theorem C03_mutating_laws :
+  forall base backup Vb Vk tnb tnk accb acck rhb rhk whb whk hid anc B0,
+  base_laws base Vb Vk tnb accb rhb whb hid anc -> base_laws2 base Vb Vk tnb accb rhb whb ->
+  backup_laws backup Vb Vk tnk acck rhk whk ->
+  links_ok tnb tnk accb acck B0 -> all_small B0 -> swf B0 ->
+  c03_mutating_stmt base backup Vb Vk B0.
+Proof. exact c03_mutating_spec. Qed.
+Print Assumptions C03_mutating_laws.
+
+(** ** (B3) closed: the two concrete layerings *)
+From BFS Require Import Spec.ViewOsfs Proofs.LawsOsfs Spec.ViewHidden Proofs.LawsHidden.
+
+Theorem C03_mutating_concrete : forall pa pb,
+  prefix_ok pa -> prefix_ok pb -> disjoint_prefixes pa pb ->
+  forall B0, links_ok clean clean (acc_p pa) (acc_p pb) B0 -> all_small B0 -> swf B0 ->
+  c03_mutating_stmt (cfg_base (gcfg pa pb)) (cfg_backup (gcfg pa pb)) (Vp pa) (Vp pb) B0.
+Proof. exact c03_mutating_concrete. Qed.
+Print Assumptions C03_mutating_concrete.
+
+Theorem C03_mutating_documented : forall pa h,
+  prefix_ok pa -> hidden_ok h ->
+  forall B0, links_ok clean clean (acc_h pa h) (acc_p (pk_h pa h)) B0 -> all_small B0 -> swf B0 ->
+  c03_mutating_stmt (cfg_base (dcfg pa h)) (cfg_backup (dcfg pa h)) (VpH pa h) (Vp (pk_h pa h)) B0.
+Proof. exact c03_mutating_documented. Qed.
+Print Assumptions C03_mutating_documented.
+
+(** the central statement for the generic layering, spelled out: no law left
+    as a hypothesis *)
+Theorem C03_mutating_transparent_concrete : forall pa pb,
+  prefix_ok pa -> prefix_ok pb -> disjoint_prefixes pa pb ->
+  forall B0, links_ok clean clean (acc_p pa) (acc_p pb) B0 -> all_small B0 -> swf B0 ->
+  forall o w, Inv (Vp pa) (Vp pb) B0 w -> covered (Vp pa) o w -> mut1 o ->
+  exists w2 r w',
+    Vp pa w2 = Vp pa w /\ w_crash w2 = w_crash w /\ w_faults w2 = w_faults w /\
+    Inv (Vp pa) (Vp pb) B0 w2 /\ infos_ext w w2 (cands (op_name o)) /\
+    step (cfg_base (gcfg pa pb)) (cfg_backup (gcfg pa pb)) o w = (r, w') /\ r <> MHalt /\
+    swf (Vp pa w') /\ store_eqv_except (op_frame o) (Vp pa w') (Vp pa w) /\ same_rest (Vp pb) w2 w' /\
+    (((exists e, r = MErr e) /\ w' = w2 /\ ~ all_dirs (Vp pa) w (op_name o)) \/
+     step_direct (cfg_base (gcfg pa pb)) o w2 = (r, w')).
+Proof.
+  intros pa pb Ha Hb Hd B0 Hl Hs Hwf.
+  exact (proj1 (c03_mutating_concrete pa pb Ha Hb Hd B0 Hl Hs Hwf)).
+Qed.
+Print Assumptions C03_mutating_transparent_concrete.
+
+Theorem C03_mutating_transparent_documented : forall pa h,
+  prefix_ok pa -> hidden_ok h ->
+  forall B0, links_ok clean clean (acc_h pa h) (acc_p (pk_h pa h)) B0 -> all_small B0 -> swf B0 ->
+  forall o w, Inv (VpH pa h) (Vp (pk_h pa h)) B0 w -> covered (VpH pa h) o w -> mut1 o ->
+  exists w2 r w',
+    VpH pa h w2 = VpH pa h w /\ w_crash w2 = w_crash w /\ w_faults w2 = w_faults w /\
+    Inv (VpH pa h) (Vp (pk_h pa h)) B0 w2 /\ infos_ext w w2 (cands (op_name o)) /\
+    step (cfg_base (dcfg pa h)) (cfg_backup (dcfg pa h)) o w = (r, w') /\ r <> MHalt /\
+    swf (VpH pa h w') /\ store_eqv_except (op_frame o) (VpH pa h w') (VpH pa h w) /\
+    same_rest (Vp (pk_h pa h)) w2 w' /\
+    (((exists e, r = MErr e) /\ w' = w2 /\ ~ all_dirs (VpH pa h) w (op_name o)) \/
+     step_direct (cfg_base (dcfg pa h)) o w2 = (r, w')).
+Proof.
+  intros pa h Ha Hh B0 Hl Hs Hwf.
+  exact (proj1 (c03_mutating_documented pa h Ha Hh B0 Hl Hs Hwf)).
+Qed.
+Print Assumptions C03_mutating_transparent_documented.
